@@ -39,6 +39,15 @@ Norm(e, logs) ==
       [] e.e = "ret"  -> IF logs THEN [e EXCEPT !.i = 0, !.pre = <<>>] ELSE [e EXCEPT !.i = 0]
       [] OTHER -> e
 
+\* feature twins: what only the added feature lets a program see is not part of "the program's observable behaviour" - a program that
+\* does not use the transition history cannot look at previousTransition(), which reads empty in the build without it
+NormF(e, logs, ft) ==
+    LET n == Norm(e, logs) IN
+    IF ~ft THEN n
+    ELSE CASE e.e = "cb"  -> [n EXCEPT !.cprev = <<255, 255, 0>>]
+           [] e.e = "ret" -> [n EXCEPT !.prev = <<255, 255, 0>>]
+           [] OTHER -> n
+
 Find(p, why) == IF \E b \in bad : b[1] = p THEN bad ELSE bad \cup {<<p, l, why>>}
 
 Step ==
@@ -66,7 +75,7 @@ Step ==
                     isCopy == e.e = "call" /\ e.op \in {"copy", "move"}
                     comparable == follower /\ ~isCopy /\ csrc = NONE /\ ~(e.e # "call" /\ cmpi # i)
                     short == mode = "lanes" /\ newburst /\ cmpi \in Inst /\ pos > 0 /\ pos < Len(ref)      \* the previous follower stopped early
-                    mismatch == comparable /\ (p1 > Len(ref) \/ Norm(ref[p1], logs) # Norm(e, logs))
+                    mismatch == comparable /\ (p1 > Len(ref) \/ NormF(ref[p1], logs, feat) # NormF(e, logs, feat))
                     b1 == IF mismatch \/ short
                           \* a lane that never had a logger and is not itself a copy differs only in the logger: C16; a copy (of any lane) that
                           \* departs from the common history is attributed to copying (its logger-less source is compared on its own)
